@@ -169,7 +169,9 @@ bool_t mtCallOnce(size_t* once, void (*fn)())
 		{
 			// ... да, обработать захват
 			VERIF_YIELD(1);
-			fn(), *once = 1;
+			fn();
+			// атомарно опубликовать завершение (и результаты fn)
+			mtAtomicCmpSwap(once, SIZE_MAX, 1);
 			break;
 		}
 	// ... нет, ожидаем обработки захвата в другом потоке
